@@ -1,8 +1,12 @@
-(** C01 — verdict functions for the cases of harness/cmd/tdc (-prop C01). *)
-From Verif Require Import Base.Prelude Model.Tdc.
-From Verif Require Judge.Tdc.
-Export Judge.Tdc.
-Definition case := Judge.Tdc.case.
-Definition agree : case -> bool := Judge.Tdc.agree.
-Definition spec : case -> bool := Judge.Tdc.spec_c01.
-Definition nontrivial : case -> bool := Judge.Tdc.nontrivial_c01.
+(** C01 — verdict functions for harness/cmd/c01: schedules on the ID-multiplexed connection (Judge.Tdc)
+    and on the non-pipelined transport (Judge.Reuse). *)
+From Verif Require Import Base.Prelude.
+From Verif Require Judge.Tdc Judge.Reuse.
+Export Judge.Tdc Judge.Reuse.
+Inductive case := KTdc (c : Judge.Tdc.case) | KReuse (c : Judge.Reuse.case).
+Definition agree (c : case) : bool :=
+  match c with KTdc x => Judge.Tdc.agree x | KReuse x => Judge.Reuse.agree x end.
+Definition spec (c : case) : bool :=
+  match c with KTdc x => Judge.Tdc.spec_c01 x | KReuse x => Judge.Reuse.spec_c01 x end.
+Definition nontrivial (c : case) : bool :=
+  match c with KTdc x => Judge.Tdc.nontrivial_c01 x | KReuse x => Judge.Reuse.nontrivial x end.
